@@ -81,6 +81,7 @@ inductive Ev where
   | push (path : String) (headers : Headers)
   | streamClosed
   | access (status : Option Nat)          -- `config.log.access(scope, response|None, …)`
+  | spawnClose                          -- `task_group.spawn(self.send, StreamClosed(...))` after the stream's own 404
 deriving Repr, DecidableEq
 
 /-- the ASGI `send` alphabet for an http scope; `Option` = key absent -/
